@@ -46,7 +46,7 @@ SemAlt(xs, i, p, s, a, look, d) ==
 \* e{min,max}: skip before every iteration but the first; a skip followed by a failed
 \* iteration is given back; fewer than min iterations fail; stop at max
 SemRep(e, i, p, s, a, look, d, acc) ==
-  IF e.max >= 0 /\ i >= e.max THEN Res(TRUE, p, s, acc)
+  IF e.max >= 0 /\ i >= e.max THEN (IF i >= e.min THEN Res(TRUE, p, s, acc) ELSE Res(FALSE, p, s, <<>>))
   ELSE
   LET k == IF i = 0 THEN Res(TRUE, p, s, <<>>) ELSE SemSkip(p, s, a, look, d)
       r == Sem(e.e, k.p, k.s, a, look, d) IN
